@@ -371,6 +371,10 @@ func (r *Runner) monTA(s *Step, rep *Reply) {
 			why := ""
 			if pl := poolByName[g.Pool]; pl != nil && len(pl.FreeSharable) == 0 && ancestorSliced(pl) > 0 {
 				why = ":drained-by-ancestor-slicing"
+			} else if pl != nil && len(pl.Sharable) == 0 {
+				// the other half of KF2: an accepted configuration (shrunk available set, reserved CPUs moved) leaves the
+				// pool of a reinstated shared grant without a single sharable CPU in its supply
+				why = ":pool-without-sharable-supply"
 			}
 			if c.CpusTold && len(MustList(c.Shadow.Cpus)) == 0 && !r.NoShadow {
 				r.Violate("C03", "empty-cpuset", s.Op+why, "after %s: CPU-pinned container %s has an empty allowed CPU set", s.Op, c.Key)
